@@ -212,7 +212,7 @@ func genLAPI(c *Cfg, emit func([]string)) {
 		case strings.HasPrefix(fn, "ind"), strings.HasSuffix(fn, "WithTicker"):
 			return pick([]string{"G1", "VT_G1", "X_Y_G2", "G2", "VT_G2", "-", "VT"})
 		case strings.HasPrefix(fn, "allowed"):
-			return pick([]string{"USD", "EUR", "G1"})
+			return pick([]string{"USD", "EUR", "G1", "BA_02"})
 		}
 		return "-"
 	}
